@@ -141,6 +141,7 @@ function genC16(mods, SPC, index) {
   const work = rng.shuffle([...mod.names]).slice(0, rng.range(1, Math.min(10, mod.names.length)));
   for (let i = 0; i < nops; i++) {
     if (rng.chance(1, 8)) ops.push({ op: "export" });
+    else if (rng.chance(1, 8)) ops.push({ op: "flat", parser: rng.pick(work) });
     else ops.push({ op: "print", parser: rng.pick(work) });
   }
   // one run in eight uses brand-new module instances for the history and for every reference
@@ -186,6 +187,30 @@ async function execC16(mods, SPC, run) {
     }
     const P = mod.P[op.parser];
     if (!P) continue;
+    if (op.op === "flat") {
+      // the non-contextual print of the same parser objects: must not depend on, nor disturb, the
+      // contextual prints that share the runtype instances with it
+      out.flat = (out.flat || 0) + 1;
+      const refMod = await refFor(op.parser);
+      const key = "flat|" + op.parser;
+      let ref = refMod.cache.get(key);
+      if (!ref) {
+        try {
+          ref = { ok: true, cs: canon(refMod.P[op.parser].schema()) };
+        } catch (e) {
+          ref = { ok: false, msg: String(e && e.message) };
+        }
+        refMod.cache.set(key, ref);
+      }
+      let got;
+      try {
+        got = { ok: true, cs: canon(P.schema()) };
+      } catch (e) {
+        got = { ok: false, msg: String(e && e.message) };
+      }
+      if (got.ok !== ref.ok || (got.ok && got.cs !== ref.cs)) viol("flat-schema-depends-on-earlier-prints", { op_index: i, parser: op.parser, got: got.ok ? JSON.parse(got.cs) : got.msg, reference: ref.ok ? JSON.parse(ref.cs) : ref.msg });
+      continue;
+    }
     out.prints++;
     const fresh = freshSingle(SPC, await refFor(op.parser), cfg, op.parser);
     let res;
@@ -813,6 +838,7 @@ async function main() {
       agg.prints += r.prints || 0;
       agg.throws += r.throws || 0;
       agg.exports += r.exports || 0;
+      agg.flat = (agg.flat || 0) + (r.flat || 0);
       agg.writes += r.writes || 0;
       agg.bytes += r.bytes || 0;
       agg.siblings = (agg.siblings || 0) + (r.siblings || 0);
@@ -953,6 +979,7 @@ async function main() {
             prints: agg.prints,
             prints_that_threw_midway: agg.throws,
             export_calls: agg.exports,
+            flat_schema_calls_interleaved: agg.flat || 0,
             runs_with_overrides: agg.overrides,
             runs_on_brand_new_module_instances: agg.pristine || 0,
             refs_resolved: agg.refs,
